@@ -416,10 +416,12 @@ theorem handleMessage_plain_err (env : CryptoEnv) (bodyOf : Init.BodyOf) (ok : B
       split at h
       · split at h
         · cases h
-        · rename_i pc2 e2 hrot
-          have := (handleRotate_err _ _ _ _ _ hrot).2.1
-          rw [hu] at this
-          cases this
+        · split at h
+          · cases h
+          · rename_i pc2 e2 hrot
+            have := (handleRotate_err _ _ _ _ _ hrot).2.1
+            rw [hu] at this
+            cases this
       · cases h
     · rw [hd] at h
       simp only [POutcome.err.injEq] at h
@@ -434,16 +436,19 @@ theorem handleMessage_plain_err (env : CryptoEnv) (bodyOf : Init.BodyOf) (ok : B
         simp only [] at h
         split at h
         · rename_i hty
+          simp only [hu, Bool.false_eq_true, if_false] at h
           split at h
           · cases h
-          · rename_i pc2 e2 hrot
-            simp only [POutcome.err.injEq] at h
-            obtain ⟨he, _, hpc⟩ := handleRotate_err _ _ _ _ _ hrot
-            rcases hpc with hpc | hpc
-            · refine ⟨h.2 ▸ he, Or.inr ⟨c, body, hu, hc, ?_, ?_⟩⟩
-              · rw [hp, hty]
-              · rw [← h.1, hpc]
-            · cases hpc
+          · split at h
+            · cases h
+            · rename_i pc2 e2 hrot
+              simp only [POutcome.err.injEq] at h
+              obtain ⟨he, _, hpc⟩ := handleRotate_err _ _ _ _ _ hrot
+              rcases hpc with hpc | hpc
+              · refine ⟨h.2 ▸ he, Or.inr ⟨c, body, hu, hc, ?_, ?_⟩⟩
+                · rw [hp, hty]
+                · rw [← h.1, hpc, hu]
+              · cases hpc
         · cases h
 
 /-! ## handshake datagrams -/
